@@ -10,6 +10,8 @@
 (*                   octets that handler wrote                                                                *)
 (*                   octets that handler wrote (large bodies: a position-dependent pattern), alien = the body *)
 (*                   contains what looks like the head of another response                                    *)
+(*   End{closed, left, garbage, invoked, pfor, pcl, pgot}   (pfor/pcl/pgot: request, Content-Length and body octets *)
+(*                   received of an INCOMPLETE response at the end, pfor = 0: none / head incomplete)          *)
 (*   End{closed, left, garbage, invoked}   the server closed the connection; octets left over that are no     *)
 (*                   complete response; octets that do not start a response where one must start (interleaving*)
 (*                   or a Content-Length that is not the body length); the requests whose handler was entered *)
@@ -28,11 +30,13 @@
 (* actions an accepted execution needed are recorded in `used` and printed at Reset:                           *)
 (*   DevRespOutOfOrder   a well-formed response of ANOTHER unanswered request is written first - responses    *)
 (*                       leave in handler completion order (F-16a)                                            *)
+(*   DevCloseTruncates   the server's close cuts a LARGE response (>= 64 KiB, a handler's, cut inside its body) that   *)
+(*                       was still being written: Transport::close() discards the write queue (F-16c)         *)
 (*   DevCloseOvertakes   a close (after the response of a later closing request, or by the I/O thread for an  *)
 (*                       undecidable message) ends the connection while earlier requests are unanswered       *)
 EXTENDS TraceBase, FiniteSets, Integers
 
-CONSTANTS DevAllowed,   \* subset of {"DevRespOutOfOrder", "DevCloseOvertakes"}
+CONSTANTS DevAllowed,   \* subset of {"DevRespOutOfOrder", "DevCloseOvertakes", "DevCloseTruncates"}
           Eval          \* TRUE: first pass (see above)
 
 VARIABLES reqs, released, answered, used, xn, ok
@@ -95,6 +99,16 @@ DevCloseOvertakes ==
     /\ \E j \in 1..N : Closing(reqs[j]) /\ (j \in Answered \/ RespOptional(reqs[j]))     \* somebody did close
     /\ used' = used \cup {"DevCloseOvertakes"} /\ UNCHANGED <<reqs, released, answered, xn, ok>>
 
+DevCloseTruncates ==
+    /\ IsEv("End") /\ ~Eval /\ "DevCloseTruncates" \in DevAllowed
+    /\ Ev.closed /\ ~Ev.garbage /\ Ev.left > 0 /\ InvokedOk(Ev)
+    /\ Ev.pfor \in (1..N) \ Answered /\ Ev.pfor \in released           \* a handler's response, begun after it returned
+    /\ reqs[Ev.pfor].k = "L" /\ Ev.pcl = reqs[Ev.pfor].n * 1024           \* a large one, with the right head,
+    /\ Ev.pgot < Ev.pcl                                                    \* cut inside its body
+    \* somebody did close (a closing handler that has returned: its own response may have been queued behind the cut one)
+    /\ \E j \in 1..N : Closing(reqs[j]) /\ (j \in Answered \/ RespOptional(reqs[j]) \/ j = Ev.pfor \/ j \in released)
+    /\ used' = used \cup {"DevCloseTruncates"} /\ UNCHANGED <<reqs, released, answered, xn, ok>>
+
 \* first pass only: an event the property does not explain marks the execution and is skipped
 EvalSkip == /\ Eval
             /\ \/ IsEv("Resp") /\ ~AbsRespOk(Ev)
@@ -106,6 +120,6 @@ EvReset == /\ IsEv("Reset")
            /\ (~ok => PrintT(<<"NOTABS", xn>>))
            /\ reqs' = <<>> /\ released' = {} /\ answered' = <<>> /\ used' = {} /\ xn' = xn + 1 /\ ok' = TRUE
 
-Next == EvBegin \/ EvRelease \/ EvResp \/ DevRespOutOfOrder \/ EvEnd \/ DevCloseOvertakes \/ EvalSkip \/ EvReset
+Next == EvBegin \/ EvRelease \/ EvResp \/ DevRespOutOfOrder \/ EvEnd \/ DevCloseOvertakes \/ DevCloseTruncates \/ EvalSkip \/ EvReset
 Spec == Init /\ [][Next]_vars
 ==============================================================================
